@@ -12,7 +12,11 @@ def parsePt (s : String) : Option Pt :=
   match s.splitOn "|" with
   | [meas, tags, t, fs] =>
     match t.toInt?, allSome ((fs.splitOn ",").map parseField) with
-    | some t, some fields => some { series := meas ++ "|" ++ tags, meas := meas, t := t, fields := fields }
+    -- the harness builds the point with models.NewPoint from a field map, which marshals the
+    -- fields sorted by name: that, not the order written on the op line, is the order in
+    -- which the shard meets them (it decides which fields exist after an in-batch conflict)
+    | some t, some fields => some { series := meas ++ "|" ++ tags, meas := meas, t := t,
+                                    fields := fields.mergeSort (fun a b => decide (a.name ≤ b.name)) }
     | _, _ => none
   | _ => none
 
